@@ -110,4 +110,19 @@ CHECKS = {
         "real": MESH_REAL, "stub": MESH_STUB,
         "assumptions": ["forged updates about real nodes are not sent here (C06/C07)"],
     },
+    "C12": {
+        "level": "exploration",
+        "level_text": "seeded rule lists (literal and /regex/ patterns, any field subset, key/action case, malformed entries) installed on the "
+                      "three nodes of a chain through ParseFirewallRules; 54 packets per run over all node pairs and a service alphabet; a "
+                      "reference first-match evaluator written from the property text is walked along the path and along the way back of "
+                      "the rejection notice, and compared with what the sockets observe",
+        "level_note": "sampling of rule lists; the packet cross product per rule list is complete for the 3-node chain and the service alphabet",
+        "quick": {"runs": 1200, "per_proc": 60},
+        "thorough": {"runs": 100000, "per_proc": 300},
+        "rule": "one run = three rule lists (0-4 rules each; 8% of rules carry one malformed element: unknown action/key, non-string value, bad "
+                "pattern) x 54 packets; expected outcome per packet: delivered / silently gone / notice naming the original addresses from the "
+                "deciding node; distinct_nontrivial counts distinct (rule counts, refused lists, outcome histogram) classes",
+        "real": MESH_REAL + ["pkg/netceptor firewall_rules.go"], "stub": MESH_STUB,
+        "assumptions": ["the reference evaluator uses Go's regexp for the pattern language itself; full match means ^(?:p)$"],
+    },
 }
